@@ -11,8 +11,8 @@ P = {
          "No safe-memory-reclamation analysis; schedules are not explored.", "3.C02", "CAS-protocol dominance and term rules over MIR"),
  "C03": ("Decides capacity and alignment terms on every Ok path (fresh and recycled, zero-size) with generic T symbolic, i.e. for all layouts.",
          "alignUp axioms; backing-store base alignment trusted for mmap.", "3.C03", "affine value numbering + order prover (alignment/capacity terms)"),
- "C04": ("Decides read-only guard first, capacity guard dominance, no effect before any Err (single-thread projection), checked arithmetic on request sizes, enumerated panic sites. Does not decide 'state exactly as before' beyond absence of effects.",
-         "maximum_retries = 0 outside the quantifier; casts >= 2^32 not judged.", "3.C04", "taint of request sizes to arithmetic sites + effect/dominance rules"),
+ "C04": ("Decides read-only guard first, capacity guard dominance, no effect before any Err (single-thread projection), checked arithmetic on request sizes, enumerated panic sites, and that every Add/Sub/Mul and every narrowing cast of a type size reachable from the allocation entry points is bounded by guards / type widths or by a named arena invariant. Does not decide 'state exactly as before' beyond absence of effects.",
+         "Arena invariants named in ARITH_JUSTIFIED (list / Meta extents below cap) are taken from C01 / C03 / C10.", "3.C04", "taint of request sizes to arithmetic sites + effect/dominance rules + order prover (Fourier-Motzkin) on every arithmetic site"),
  "C05": ("Decides the persistence discipline (state only in the in-file header, offsets only, reopen writes only above the stored cursor, caches derived from the file). Does not decide equality of observations across reopen over histories.",
          "OS page cache and memmap2 semantics.", "3.C05", "who-writes / provenance / effect rules over MIR"),
  "C06": ("Decides the order of persistent writes inside each operation and that reopen re-zeroes above the cursor; reports the unrecoverable mark window. Does not decide crash behaviour over crash points x histories.",
@@ -41,11 +41,12 @@ P = {
          "0 <= data_offset <= cap.", "3.C17", "must-pass-through + clamp terms + taint"),
  "C18": ("Decides ro guard, floor, copy length, cap/ptr refresh, absence of header effects, &mut self exclusivity.",
          "Re-map failure paths not judged.", "3.C18", "dominance + term + effect rules on truncate"),
+ "C19": ("Decides that checksum feeds one hasher an ordered, gap-free, overlap-free cover of allocated_memory()[reserved..] for every length, page size and content: a symbolic consumed-position is propagated over the CFG with loop invariants checked at entry and over the back edge, exact product and div/mod arithmetic, and must equal data.len() at every return. Equality of the digest then rests on the streaming contract of Checksumer.",
+         "Checksumer::update is a streaming fold (update(a); update(b) = update(a ++ b)); page_size() != 0; slice::chunks contract.", "3.C19", "position dataflow with checked loop invariants over MIR (ordered contiguous cover)"),
  "C20": ("Decides who writes discarded and by how much at each release class, accumulator = increments in discard_freelist, exit only on empty list.",
          "Counter arithmetic modulo 2^32 out of scope.", "3.C20", "who-writes + increment terms + dominance"),
 }
 NA = {
- "C19": "checksum independence of chunking is an equality of numeric results over a loop whose chunk bounds are products of run-time values (page_id * page_size) plus a div/mod identity: outside linear value numbering, and any shape-matching proxy would fire on behaviour-preserving rewrites (DESIGN section 4).",
 }
 
 def main():
